@@ -10,7 +10,7 @@ import (
 
 // Wiring facts: prerequisites of several properties, read from app/app.go and x/alliance/module.go.
 func init() {
-	register(&Rule{ID: "W.wiring", Props: []string{"C08", "C10", "C11", "C17", "C06"}, Floor: 8,
+	register(&Rule{ID: "W.wiring", Props: []string{"C08", "C10", "C11", "C17", "C06", "C07", "C02", "C09", "C14", "C15"}, Floor: 8,
 		Doc: "the application wires the alliance hooks, end-blocker, module accounts and custom bank module",
 		Run: func(e *Engine, r *RuleRun) {
 			appNew := e.Fn("app.New")
